@@ -129,6 +129,11 @@ class Ctx:
     def thorough(self):
         return self.tier == "thorough"
 
+    @property
+    def fixtures(self):
+        """slices of the repository's fixtures are extra inputs of the thorough tier (VERIF_FIXTURES=1 forces them)"""
+        return self.thorough or bool(os.environ.get("VERIF_FIXTURES"))
+
     def cleanup(self):
         shutil.rmtree(self.tmp, ignore_errors=True)
 
